@@ -50,7 +50,12 @@ const importFlake = "could not import github.com/quasilyte/go-ruleguard/dsl"
 
 func loadObs(fset *token.FileSet, src []byte) (e *ruleguard.Engine, o Obs) {
 	for try := 0; try < 4; try++ {
-		e, o = loadObs1(fset, src)
+		e, o = loadObs1(fset, src, 5*time.Second)
+		if o.Kind == "timeout" {
+			// a stalled machine (the source importer runs `go list`) looks like a hang: only a Load that does not
+			// return within 30 s either is reported
+			e, o = loadObs1(fset, src, 30*time.Second)
+		}
 		if !strings.Contains(o.Err, importFlake) {
 			break
 		}
@@ -58,7 +63,7 @@ func loadObs(fset *token.FileSet, src []byte) (e *ruleguard.Engine, o Obs) {
 	return e, o
 }
 
-func loadObs1(fset *token.FileSet, src []byte) (*ruleguard.Engine, Obs) {
+func loadObs1(fset *token.FileSet, src []byte, limit time.Duration) (*ruleguard.Engine, Obs) {
 	type res struct {
 		e *ruleguard.Engine
 		o Obs
@@ -83,7 +88,7 @@ func loadObs1(fset *token.FileSet, src []byte) (*ruleguard.Engine, Obs) {
 	select {
 	case r := <-ch:
 		return r.e, r.o
-	case <-time.After(5 * time.Second):
+	case <-time.After(limit):
 		return nil, Obs{Kind: "timeout"}
 	}
 }
